@@ -881,7 +881,6 @@ var startTargets = []string{
 
 func (w *world) targetCase(hdrHost, target string, sh shape) c.Case {
 	status, location := 0, ""
-	var startedHost, recorded *string
 	// harness-side trouble (loopback dial or read timing out on a loaded machine) is retried; what the
 	// server answers is an observation
 	for attempt := 0; attempt < 4 && status == 0; attempt++ {
@@ -910,6 +909,14 @@ func (w *world) targetCase(hdrHost, target string, sh shape) c.Case {
 		}
 		conn.Close()
 	}
+	return w.renderTarget(hosts, hdrHost, target, sh, status, location, nil)
+}
+
+// renderTarget projects the answer to one request-for-a-page (status, Location, and — when a flow was
+// started — the host the authenticator is asked to return to and the recorded redirect URI) into a
+// CTarget case.  [routable] is the list of hosts the deployment routes (the model's static host list).
+func (w *world) renderTarget(routable []string, hdrHost, target string, sh shape, status int, location string, extra map[string]interface{}) c.Case {
+	var startedHost, recorded *string
 	if status == http.StatusFound {
 		if loc, err := url.Parse(location); err == nil {
 			var r stateRec
@@ -926,12 +933,118 @@ func (w *world) targetCase(hdrHost, target string, sh shape) c.Case {
 		location = "" // the sign-in URL (authenticator address, signature, sealed state) is not an observable
 	}
 	coq := fmt.Sprintf("CTarget %s %s %s {| to_status := %d; to_location := %s; to_started := %s |}",
-		c.Strs(hosts), c.Str(hdrHost), c.Str(target), status, c.Str(location), started)
+		c.Strs(routable), c.Str(hdrHost), c.Str(target), status, c.Str(location), started)
 	js := map[string]interface{}{"kind": "target", "host_header": hdrHost, "shape": sh.describe(), "target": fmt.Sprintf("%q", target), "status": status, "location": location}
 	if recorded != nil {
 		js["started_host"], js["recorded"] = *startedHost, fmt.Sprintf("%q", *recorded)
 	}
+	for k, v := range extra {
+		js[k] = v
+	}
 	return c.Case{Coq: coq, JSON: js}
+}
+
+// interleaveRW is a ResponseWriter that lets ANOTHER request be served every time the handler of
+// this request touches its response (Header, WriteHeader, Write): a deterministic stand-in for two
+// goroutines of the HTTP server whose requests overlap, at every point where they can.
+type interleaveRW struct {
+	*httptest.ResponseRecorder
+	other func()
+	n     int
+	busy  bool
+}
+
+func (w *interleaveRW) fire() {
+	if w.busy || w.n >= 16 {
+		return
+	}
+	w.busy = true
+	w.n++
+	w.other()
+	w.busy = false
+}
+func (w *interleaveRW) Header() http.Header { w.fire(); return w.ResponseRecorder.Header() }
+func (w *interleaveRW) WriteHeader(code int) {
+	w.fire()
+	w.ResponseRecorder.WriteHeader(code)
+}
+func (w *interleaveRW) Write(b []byte) (int, error) { w.fire(); return w.ResponseRecorder.Write(b) }
+
+// overlappingStarts: an unauthenticated request for a page on hostA during which requests for a
+// page on hostB are served (see interleaveRW); each start is judged on its own — the authenticator
+// must be asked to return the browser to the host the flow was started on, with that request's
+// target recorded — and flow A is then completed the way a browser would: the callback goes to the
+// host named in redirect_uri, with A's own state and CSRF cookie.
+func (w *world) overlappingStarts(r *c.Rng, auth *codeAuth, hostA, hostB string) ([]c.Case, error) {
+	tA, tB := r.Pick(startTargets), r.Pick(startTargets)
+	shA, shB := genShape(r, hostA), genShape(r, hostB)
+	reqA, err := rawRequest(shA.Method, tA, hostA, shA.Hdr, "")
+	if err != nil {
+		return nil, err
+	}
+	var recB *httptest.ResponseRecorder
+	nB := 0
+	rw := &interleaveRW{ResponseRecorder: httptest.NewRecorder(), other: func() {
+		reqB, err := rawRequest(shB.Method, tB, hostB, shB.Hdr, "")
+		if err != nil {
+			return
+		}
+		recB = w.Do(reqB)
+		nB++
+	}}
+	w.Handler.ServeHTTP(rw, reqA)
+	routable := []string{hostA, hostB}
+	extra := map[string]interface{}{"overlap": fmt.Sprintf("%d requests for %s%s served while this request was being handled", nB, hostB, tB), "deployment": w.name}
+	out := []c.Case{w.renderTarget(routable, hostA, tA, shA, rw.Code, rw.Header().Get("Location"), extra)}
+	if recB != nil {
+		out = append(out, w.renderTarget(routable, hostB, tB, shB, recB.Code, recB.Header().Get("Location"),
+			map[string]interface{}{"overlap": "served inside the handling of a request for " + hostA + tA, "deployment": w.name}))
+	}
+	// complete flow A as its browser would
+	loc, err := url.Parse(rw.ResponseRecorder.Header().Get("Location"))
+	if rw.Code != http.StatusFound || err != nil {
+		return out, nil
+	}
+	x := newCtx()
+	state := loc.Query().Get("state")
+	cookie := ""
+	for _, ck := range rw.Result().Cookies() {
+		if ck.Name == w.csrfKey {
+			cookie = ck.Value
+		}
+	}
+	var a, b stateRec
+	if w.Cipher.Unmarshal(state, &a) != nil || w.Cipher.Unmarshal(cookie, &b) != nil || a != b {
+		return out, nil // the start case above already shows it
+	}
+	cbHost := strings.TrimSuffix(strings.TrimPrefix(loc.Query().Get("redirect_uri"), "http://"), "/oauth2/callback")
+	f := flowRec{Sid: x.sid(a.SessionID), Redirect: a.RedirectURI}
+	fl := &started{rec: f, state: state, cookie: cookie, shape: shA}
+	fl.cookSym = x.name(cookie, 1, &f, nil)
+	fl.stateSym = x.name(state, 1, &f, nil)
+	code, email := fmt.Sprintf("code-%d", r.Intn(1000000)), "u@ex.io"
+	auth.script(map[string]c.Answer{code: okRedeem(email)})
+	req, err := rawRequest("GET", "/oauth2/callback?code="+url.QueryEscape(code)+"&state="+url.QueryEscape(state), cbHost,
+		map[string]string{"Cookie": w.csrfKey + "=" + cookie}, "")
+	if err != nil {
+		return out, nil
+	}
+	ob := w.observe(w.Do(req))
+	canon := true
+	if v, ok := respell(cookie, 1); ok && w.opens(v) {
+		canon = false
+	}
+	rt := []string{c.Pair(c.Str(""), c.Str(goRedirect(""))), c.Pair(c.Str(f.Redirect), c.Str(goRedirect(f.Redirect)))}
+	reqCoq := fmt.Sprintf("{| cb_form_ok := true; cb_error := []; cb_code := %s; cb_state := %s; cb_cookie := (Some %s); cb_host := %s; cb_redeem := (RedeemOk %s); cb_valid := %s |}",
+		c.Str(code), wire{Sealed: fl.stateSym}.coq(), wire{Sealed: fl.cookSym}.coq(), c.Str(cbHost), c.Str(email), c.Bool(w.admits(cbHost, email, profileAnswer{})))
+	obsCoq := fmt.Sprintf("{| fo_status := %d; fo_redeem_called := %s; fo_session := %s; fo_csrf_cleared := %s; fo_location := %s |}",
+		ob.status, c.Bool(auth.redeemed(code)), ob.sessCoq, c.Bool(ob.csrfCleared), c.Str(ob.location))
+	coq := fmt.Sprintf("CFlow %s %s %s %s %s %s %s", c.Bool(canon), c.Bool(w.strict), c.List([]string{fl.coq()}),
+		c.List([]string{fl.cookSym.coq(), fl.stateSym.coq()}), reqCoq, c.List(rt), obsCoq)
+	out = append(out, c.Case{Coq: coq, JSON: map[string]interface{}{
+		"kind": "flow", "deployment": w.name, "presented": "own-after-overlapping-start", "started_under": hostA, "host": cbHost, "start_target": tA,
+		"recorded": f.Redirect, "obs": map[string]interface{}{"status": ob.status, "session": ob.sessJSON, "csrf_cleared": ob.csrfCleared, "location": ob.location}}})
+	return out, nil
 }
 
 var boundaryTargets = []string{
@@ -1113,6 +1226,16 @@ func main() {
 		cs, err := ww.flowCase(r, auth, "own@overlap")
 		expect(err)
 		allCases = append(allCases, cs)
+	}
+	// flow STARTS that overlap: two hosts of one rewrite upstream (one OAuthProxy object serves both),
+	// two hosts of different upstreams, and one host with itself
+	overlapPairs := [][2]string{{hostRwUp, hostRwDt}, {hostRw6, "rw.test:7443"}, {hostAny, "blog.rx.test"}, {hostRwDt, hostRwUp},
+		{hostApp, hostOther}, {hostSvcA, hostSvcB}, {hostApp, hostApp}, {hostAny, hostAdmin}}
+	for i := 0; i < len(overlapPairs)+a.N/150; i++ {
+		pr := overlapPairs[i%len(overlapPairs)]
+		cs, err := pick().overlappingStarts(r, auth, pr[0], pr[1])
+		expect(err)
+		allCases = append(allCases, cs...)
 	}
 	// callbacks in flight at once: pairs and triples, on one host and on different hosts
 	nGroups := 6 + a.N/100
